@@ -85,17 +85,45 @@ pub fn check(case: &Case, l: &mut Local) -> Verdict {
     Verdict::Pass { nontrivial: any_match && (t.nonascii || fl.i) }
 }
 
+fn gen_small(src: &mut Src, _t: Tier) -> Case {
+    let v = super::c01::small_slice(true);
+    v[(src.raw() as usize).min(v.len() - 1)].clone()
+}
+
+fn check_small(case: &Case, l: &mut Local) -> Verdict {
+    static HAYS: std::sync::OnceLock<Vec<String>> = std::sync::OnceLock::new();
+    let hays = HAYS.get_or_init(|| all_strings(&[0x61, 0x62], 4));
+    let mut nontrivial = false;
+    for fl in ["", "i", "iu"] {
+        for h in hays {
+            for s in [0usize, 1, h.len() + 1] {
+                let c = Case { hay: h.clone(), start: s, flags: fl.to_string(), ..case.clone() };
+                match check(&c, l) {
+                    Verdict::Fail(m) => return Verdict::Fail(format!("flags \"{}\" on \"{}\" from {}: {}", fl, h, s, m)),
+                    Verdict::Pass { nontrivial: n } => nontrivial |= n,
+                    _ => {}
+                }
+            }
+        }
+    }
+    Verdict::Pass { nontrivial }
+}
+
+pub static VX: Variant = Variant { name: "exhaustive_small_patterns", choice_len: 1, gen: gen_small, check: check_small };
 pub static V: Variant = Variant { name: "ascii_vs_utf8", choice_len: 400, gen, check };
 
 pub fn variants() -> Vec<&'static Variant> {
-    vec![&V]
+    vec![&V, &VX]
 }
 
 pub fn run(ctx: &Ctx) -> i32 {
+    let slice = super::c01::small_slice(true);
+    let part: Vec<Case> = slice.iter().enumerate().filter(|(i, _)| ctx.tier == Tier::Thorough || i % 8 == 0).map(|(_, c)| c.clone()).collect();
+    ctx.run_list(&VX, &part);
     ctx.run_variant(&V, ctx.scale(800_000, 12_000_000));
     ctx.finish(
         "exploration",
-        "random ES patterns (incl. non-ASCII literals, U+017F/U+212A fold partners, surrogate escapes, \\p) x ASCII haystacks over all 128 bytes x every start <= len+1; both executors, both pipelines; oracle = differential find_from_ascii vs find_from. Non-trivial = a match exists and the pattern mentions a non-ASCII character or uses i.",
+        "(bounded-exhaustive) the small-pattern grammar of C01 (an eighth of it in the quick tier) under flags -, i, iu x all haystacks in {a,b}^<=4 x starts 0, 1, len+1; plus random ES patterns (incl. non-ASCII literals, U+017F/U+212A fold partners, surrogate escapes, \\p) x ASCII haystacks over all 128 bytes x every start <= len+1; both executors, both pipelines; oracle = differential find_from_ascii vs find_from. Non-trivial = a match exists and the pattern mentions a non-ASCII character or uses i.",
         &["fuel hook cuts runaway searches (counted, never judged)"],
     )
 }
